@@ -3,11 +3,11 @@
 (* carry distinguishable payloads (tags), caller-side frame objects that are mutated in      *)
 (* place and handed over repeatedly, in-place edits of stored frames, and column adders.     *)
 EXTENDS EzApi, Json
-CONSTANTS NTags, NCallers
+CONSTANTS NTags, NCallers, NChan
 
-p1 == <<112,49>>  p2 == <<112,50>>  a1 == <<97,49>>
+p1 == <<112,49>>  p2 == <<112,50>>  a1 == <<97,49>>  a2 == <<97,50>>
 MC_PNames == {p1, p2}
-MC_ANames == {a1}
+MC_ANames == IF NChan >= 2 THEN {a1, a2} ELSE {a1}     \* a second channel name: channel columns can be added to existing frames
 MC_PRates == {FOfNat(100)}
 MC_ARates == {FOfNat(200)}
 MC_FrameKinds == {"conf"}
